@@ -51,6 +51,11 @@ def configs(tier):
                         scs=[(0, 1)]))
         out.append(dict(name="pair2c", nr=2, nc=2, cells=cellset([10040, 10080], [1000, 1030], [1, 2, 4, 5, 6]),
                         maps=["ssi"], scs=[(0, 1)]))
+    # (i') nearly equidistant competitors in the previous order: 10.95 Hz lies 0.95 Hz above 10 Hz and 1.05 Hz below
+    # 12 Hz - nearest in *frequency* is 10 Hz, nearest in relative terms (normalised by the candidate) is 12 Hz; with
+    # a 15 % frequency tolerance both candidates pass on frequency, so the verdict hangs on which one is compared
+    out.append(dict(name="equid", nr=2, nc=2, cells=cellset([10000, 10950, 12000], [1000, 2000], [1, 3]), maps=["ssi"],
+                    scs=[(0, 1)], efn=(15, 100)))
     # (ii) placement of [ordmin, ordmax] and the first order over 5 columns, one-symbol alphabet
     out.append(dict(name="place", nr=1, nc=5, cells=cellset([10040], [1000], [1]), maps=["ssi", "plscf"],
                     scs="all"))
@@ -154,7 +159,7 @@ def run(ctx):
                 "Tables": Raw(f"[1..{c['nr']} -> [1..{nc} -> {c['cells']}]]"),
                 "FDen": pw.FDEN, "XDen": pw.XDEN, "CDen": pw.CDEN, "Shapes": pw.shapes_tla(),
                 "MpcGE": ge, "MpdLE": le, "HcSets": Raw("{}"),
-                "ScSets": Raw("{" + ", ".join(sc_tla(a, b) for a, b in scs) + "}"),
+                "ScSets": Raw("{" + ", ".join(sc_tla(a, b, efn=c.get("efn", (1, 100))) for a, b in scs) + "}"),
                 "ExSets": Raw("{}"), "DrawSets": Raw("{}"), "Focus": "label",
             }
             mod, cfg = ctx.model("Poles", f"{c['name']}_{m}", consts,
